@@ -308,7 +308,14 @@ def gen_meshb_write(rng, tier):
         m = gen_mesh(rng, nslots=rng.choice([150, 700, 1300]), ncell_scale=rng.choice([30, 120]), holes=True)
         ops.append(' '.join(['write_meshb', '%d' % rng.choice([2, 3, 4])] + mesh_words(m)))
     if tier == 'thorough':   # cross ref_node / ref_cell chunk (5000) and ref_geom chunk (1000)
-        m = gen_mesh(rng, nslots=5600, ncell_scale=1200, kinds=['tri', 'tet', 'pyr'])
+        # (the harness splits at most 65536 words per line: keep the description below that)
+        m = gen_mesh(rng, nslots=5600, kinds=[], geoms=False)
+        live = [i for i, sl in enumerate(m['slots']) if sl is not None]
+        m['cells'] = [('tet', [[rng.choice(live) for _ in range(4)] for _ in range(5200)]),
+                      ('pyr', [[rng.choice(live) for _ in range(5)] for _ in range(300)]),
+                      ('tri', [[rng.choice(live) for _ in range(3)] + [rng.randint(1, 9)] for _ in range(300)])]
+        m['geoms'] = [(rng.randint(0, 2), k, rng.randint(1, 30), rng.choice(live), dbits(rng), dbits(rng)) for k in range(1100)]
+        assert len(mesh_words(m)) < 60000
         ops.append(' '.join(['write_meshb', '3'] + mesh_words(m)))
     # malformed descriptions: both sides must say bad-op
     ops.append('write_meshb 2 0 n 2 0000000000000000 0000000000000000 0000000000000000 - c tri 1 0 1 0 5')
@@ -683,6 +690,13 @@ def mutants(rng, data, w, nflip=6, nsub=10, ntrunc=8, payload_ok=True):
         if kind == 'next' and rng.random() < 0.5:
             val = rng.choice([s[1] for s in w.sections] + [off - 4, 8, n, n - 1, n + 1])
         out.append(('%s@%d:=%d' % (kind, off, val), put(data, off, width, val)))
+    # boundary values of the range-checked fields: version 1..4, dim 2..3, solution types 1..3
+    for kind, off, width in w.fields:
+        if kind in ('version', 'dim', 'type'):
+            for val in {'version': (0, 5, rng.choice([1, 2, 3, 4])), 'dim': (1, 4, rng.choice([2, 3])),
+                        'type': (0, 3, 4, rng.choice([1, 2]))}[kind]:
+                if rng.random() < 0.5:
+                    out.append(('%s@%d:=%d' % (kind, off, val), put(data, off, width, val)))
     # section duplication / reorder on the byte level (positions are then stale on purpose) ...
     if len(w.sections) >= 2:
         a, b_ = rng.sample(w.sections, 2)
@@ -866,6 +880,22 @@ def gen_c20_count(rng, tier):
     return ops
 
 
+def gen_c20_names(rng, tier):
+    """file names shorter than the longest suffix the *_by_extension dispatchers compare against"""
+    ops = ['robust_name 0 hcn_a.b', 'robust_name 0 hcn_.meshb', 'robust_name 1 hcn_a.tec', 'robust_name 2 hcn_',
+           'robust_name 0 hcn_long_enough_name.meshb', 'robust_name 1 hcn_long_enough_name.meshb',
+           'robust_name 2 hcn_long_enough_name.solb']
+    if tier == 'quick':
+        return ops
+    sufs = ['.meshb', '.ugrid', '.lb8.ugrid', '.b8.ugrid64', '.su2', '.msh', '.solb', '.met', '.tec', '.x', '']
+    for _ in range(40):
+        stem = ''.join(rng.choice('abcxyz_0') for _ in range(rng.randint(0, 9)))
+        ops.append('robust_name %d hcn_%s%s' % (rng.randint(0, 2), stem, rng.choice(sufs)))
+    return ops
+
+
+C20_NAMES = Stream('c20_names', 'h_codec', 'codec', gen_c20_names, oracle=oracle_returns, whitebox=['ref_import'],
+                   nontrivial=lambda op, out: True, harness_args=['4'], site='by-extension-short-file-name')
 C20_HANG = Stream('c20_hang', 'h_codec', 'codec', gen_c20_hang, oracle=oracle_returns, whitebox=['ref_import'],
                   nontrivial=lambda op, out: True, harness_args=['1'], site='meshb-header-no-progress')
 C20_INDEX = Stream('c20_index', 'h_codec', 'codec', gen_c20_index, oracle=oracle_returns, whitebox=['ref_import'],
